@@ -151,3 +151,22 @@ Theorem string_valid_ok (mn : nat) (mx : option Z) :
 Proof.
   intros H. rewrite !repeat_length. split; [apply le_n|]. intros m ->. apply Z.ltb_ge in H. exact H.
 Qed.
+
+(* C12 (enum): every member of the enum is (Python-)equal to a value that becomes a valid leaf, and there is always
+   a non-member among the invalid leaves *)
+Theorem enum_members_covered en m : hashable_all en = true -> In m en -> pmem m (enum_valid [] en) = true.
+Proof.
+  intros He Hm. pose proof (pset_covers en He m Hm) as C. apply pmem_spec in C. destruct C as (m' & Hm' & E').
+  apply pmem_spec. exists m'. split; auto. apply (enum_valid_all [] en eq_refl He m' Hm').
+Qed.
+
+Theorem enum_nonmember_present ne en : hashable_all ne = true -> hashable_all en = true ->
+  exists x, In x (enum_invalid' ne en) /\ pmem x en = false.
+Proof.
+  intros Hn He.
+  assert (X : exists x, In x (enum_invalid' ne en)).
+  { unfold enum_invalid'. destruct (pmem (enum_filler (enum_valid ne en)) (enum_invalid ne en)) eqn:M.
+    - apply pmem_spec in M. destruct M as (x & Hx & _). eauto.
+    - exists (enum_filler (enum_valid ne en)). apply in_or_app. right. left. reflexivity. }
+  destruct X as (x & Hx). exists x. split; [exact Hx|]. exact (enum_invalid_not_member ne en x Hn He Hx).
+Qed.
